@@ -1,4 +1,5 @@
 import CM.Proofs.Issue
+import CM.Proofs.IssueTerm
 /-!
 # C01 — issuance for a name is serialised and never repeated cluster-wide
 
@@ -474,12 +475,32 @@ theorem C01_takeover {s : St} (h : Reach due s) (p : Nat) (hp : s.pc p = .wantLo
     · left
       exact ⟨q, hl, hd, by simp [step, hl, hd]⟩
 
+/-- **Nobody hangs (1)**: every run of `n` requests is finite, with an explicit bound — each
+step strictly decreases a measure built from the program counters and the remaining retry
+budgets (`doWithRetry` gives up after its maximum duration). -/
+theorem C01_terminates {s s' : St} (h : Reach due s) (n : Nat) (es : List Ev)
+    (hn : ∀ e ∈ es, ∀ p, e.proc = some p → p < n) (hr : run due s es = some s') :
+    es.length ≤ mu n s := by
+  have := run_length_le es s s' (inv_reach h) hn hr
+  omega
+
+/-- **Nobody hangs (2)**: a state in which no step is enabled has nobody waiting for the
+lock — so every maximal run ends with every request finished (or dead), none left hanging
+behind a failed or dead leader. -/
+theorem C01_final_no_waiter {s : St} (h : Reach due s) (hfin : ∀ e, step due s e = none) (p : Nat) :
+    s.pc p ≠ .wantLock := by
+  intro hp
+  rcases C01_takeover h p hp with ⟨_, h1⟩ | ⟨q, _, _, h1⟩ | ⟨q, e, _, _, h1, _⟩
+  · rw [hfin] at h1; cases h1
+  · rw [hfin] at h1; cases h1
+  · rw [hfin] at h1; cases h1
+
 /-! ### non-vacuity: a concrete run with a failing leader -/
 
 /-- three requests on an empty store: 0 = async obtain, 1 = renew, 2 = manage -/
 def ex0 : St := { lock := none, stored := none, next := 1, pc := fun _ => .start
                   kind := fun p => if p = 0 then .obtain else if p = 1 then .renew else .manage
-                  async := fun p => p = 0, contacted := fun _ => false, issuedBy := fun _ => 0 }
+                  async := fun p => p = 0, budget := fun _ => 3, contacted := fun _ => false, issuedBy := fun _ => 0 }
 
 example : initial ex0 := by
   refine ⟨rfl, fun _ => rfl, fun _ => rfl, fun _ => rfl, Or.inl rfl, rfl⟩
@@ -491,6 +512,8 @@ def exRun : List Ev :=
   [.pre 0, .pre 2, .pre 2, .acq 0, .recheck 0, .issueBegin 0, .issueEnd 0 false, .retry 0, .recheck 0,
    .issueBegin 0, .issueEnd 0 true, .saveOk 0, .rel 0, .pre 1, .acq 2, .recheck 2, .rel 2,
    .acq 1, .recheck 1, .rel 1]
+
+example : mu 3 ex0 = 127 := by decide
 
 example : (run (fun _ => false) ex0 exRun).map
     (fun s => (s.stored, s.pc 0, s.pc 1, s.pc 2, s.contacted 1, s.contacted 2, s.issuedBy 0)) =
